@@ -479,7 +479,14 @@ def _rs_run(self):
 
 RS = labtech.task()(type('RS', (), {'__annotations__': {'name': str, 'shape': Any, 'deps': Any}, 'run': _rs_run, '__module__': MODULE,
                                     '__qualname__': 'RS', 'deps': None}))
-RESULT_TYPES = {'RV': RV, 'RJ': RJ, 'RZ': RZ, 'RS': RS}
+def _rn_post_init(self):
+    # a post_init that normalises one of the task's own parameters (the documented object.__setattr__ idiom)
+    object.__setattr__(self, 'name', self.name.strip().lower())
+
+
+RN = labtech.task()(type('RN', (), {'__annotations__': {'name': str, 'shape': Any, 'deps': Any}, 'run': _rv_run, 'post_init': _rn_post_init,
+                                    '__module__': MODULE, '__qualname__': 'RN', 'deps': None}))
+RESULT_TYPES = {'RV': RV, 'RJ': RJ, 'RZ': RZ, 'RS': RS, 'RN': RN}
 
 
 # ---------------------------------------------------------------------------------------------------
